@@ -213,6 +213,7 @@ def call_function(fr, qual, args, kw, extra, n):
     sub = SE.Frame(ctx, fn, bound, depth=fr.depth + 1, pc=fr.pc, loops=fr.loops)
     sub.perm = list(fr.perm)
     ctx.inlined.add(qual)
+    ev['inlined'] = True                       # the callee's own calls follow in the trace; rules about 'the first call' skip this event
     res = sub.run()
     # by-reference updates of arguments that were plain local names
     for p, new in sub.param_out.items():
@@ -830,6 +831,11 @@ def method(fr, recv, recv_node, name, args, kw, extra, n):
             return ('shaped', recv[1] + '.flat', (n_,))
         return T.call('flatten', (recv,), kw)
     if name == 'reshape':
+        shp = args[0][1] if len(args) == 1 and args[0][0] == 'tuple' else tuple(args)
+        if not kw and recv[0] == 'nd' and recv[1][0] == 'list' and len(shp) == 2 and all(T.isnum(d) and isinstance(d[1], int) and d[1] >= 0 for d in shp) \
+                and not any(x[0] == 'list' for x in recv[1][1]) and shp[0][1] * shp[1][1] == len(recv[1][1]):
+            a_, b_ = shp[0][1], shp[1][1]            # C-order reshape of a flat literal list to (a, b)
+            return ('nd', ('list', tuple(('nd', ('list', recv[1][1][i * b_:(i + 1) * b_])) for i in range(a_))))
         return T.call('reshape', (recv,) + tuple(args), kw)
     if name == 'nonzero':
         return ('tuple', (T.call('flatnonzero', (recv,)),))
